@@ -693,7 +693,8 @@ fn judge(c: &FCase, alpha: &[Hostile], o: &FOut) -> Vec<(String, String)> {
     // what a reassembly buffer holds stays in proportion to the distinct bytes outstanding, however
     // often the peer repeats itself
     let (alloc, uniq, chunks) = o.mem_worst;
-    if alloc as u64 > 3 * uniq + 65_536 || chunks > 1100 {
+    // (a chunk per distinct outstanding byte is within the window's bound; beyond that, chunks are copies)
+    if alloc as u64 > 3 * uniq + 65_536 || chunks as u64 > uniq + 1100 {
         v.push((format!("reassembly-memory-unbounded:{role}:{}", names[0]), format!("after {} x {names:?} a reassembly buffer accounts for {alloc} allocated bytes in {chunks} chunks while at most {uniq} distinct bytes are outstanding", c.repeat.max(1))));
     }
     if c.state == VState::LocallyClosed {
